@@ -41,7 +41,7 @@ TPSig ==
              LET c == r.checks[i] IN
                /\ c.verdict = (~r.s1_is_identity /\ c.pairing_eq)      \* exactly the PS relation
                /\ c.kind = "same" => c.verdict = valid
-               /\ c.kind \in {"coord", "otherkey", "wrongbf"} => ~c.verdict
+               /\ c.kind \in {"coord", "otherkey", "wrongbf", "keyfield"} => ~c.verdict
                /\ (c.kind = "pairing_any" /\ deg) => c.pairing_eq         \* the identity signature satisfies the bare equation
 (* C08: signature request proofs *)
 TRequest ==
